@@ -654,7 +654,12 @@ def run_twin_trace(cfg, calls):
 
 def run_trace(cfg, ops):
     """execute on the implementation. Returns dict(lines=[...], obs=[...], err=None|str)"""
-    tmp = scratch_dir('kw')
+    with fd_budget(json.dumps(cfg, sort_keys=True)):
+        return _run_trace(cfg, ops)
+
+
+def _run_trace(cfg, ops):
+    tmp = scratch_dir_for('kw', json.dumps(cfg, sort_keys=True))
     cwd = os.getcwd()
     try:
         os.chdir(tmp)
